@@ -815,6 +815,8 @@ def concretize(world, v, model):
     if isinstance(v, dict) and all(isinstance(k, (str, int)) for k in v):
         # python dict with concrete keys (e.g. the dict-valued fields of a record): same rendering as a finite map
         return {"__map__": [[k, concretize(world, x, model)] for k, x in v.items()]}
+    if hasattr(v, "concretize_value"):        # contract-level value kinds (xmaps.ODictV ...) render themselves (additive)
+        return v.concretize_value(world, model)
     return repr(v)
 
 
